@@ -39,6 +39,11 @@ impl Focus {
 
 pub const KF1: &str = "KF1";
 
+thread_local! {
+    /// optimum edit distance known by construction (inputs too large for the DP oracle)
+    static KNOWN_OPTIMUM: std::cell::Cell<Option<usize>> = std::cell::Cell::new(None);
+}
+
 pub fn families(focus: Focus) -> Vec<Box<dyn Family>> {
     let mut v: Vec<Box<dyn Family>> = Vec::new();
     v.push(family(
@@ -229,18 +234,25 @@ pub fn families(focus: Focus) -> Vec<Box<dyn Family>> {
         move |idx, cfg, out| {
             let mut rng = Rng::for_case(cfg.seed, "captured.distinct_boundary", idx);
             let bound = if cfg.tiny { 8 } else { [256usize, 1024, 4096, 65536][(idx % 4) as usize] };
-            let n = bound - 1 - rng.below(bound.min(400) / 4 + 1);
-            let l1 = rng.below(100.min(n / 2) + 1);
-            let l2 = (bound - n + 1) + l1 + rng.below(300);
-            let head = rng.below(n - l1 + 1);
-            let (a, b) = gen::asymmetric_replace(&mut rng, head, n - l1 - head, l1, l2);
+            // old and new both have n < bound items (idx 12..16: n a little ABOVE the bound); a block of
+            // l items is replaced by l fresh ones, so both sides together have n + l > bound distinct items
+            let n = if idx >= 12 && !cfg.tiny { bound + 1 + rng.below(bound.min(400) / 4 + 1) } else { bound - 1 - rng.below(bound.min(400) / 4 + 1) };
+            let l = ((bound.saturating_sub(n)) + 2 + rng.below(300)).min(n);
+            let head = rng.below(n - l + 1);
+            let (a, b) = gen::asymmetric_replace_distinct(head, n - l - head, l, l);
             let (a, b) = if idx % 8 < 4 { (a, b) } else { (b, a) };
             let alg = if focus == Focus::C03 || idx % 2 == 0 { Algorithm::Myers } else { Algorithm::Patience };
-            if focus == Focus::C03 && n > 5000 {
-                return;
-            }
-            out.sample(|| format!("alg={} N={} M={} (boundary {})", alg_name(alg), a.len(), b.len(), bound));
+            out.sample(|| format!("alg={} N={} M={} ({} distinct items overall, boundary {})", alg_name(alg), a.len(), b.len(), n + l, bound));
             out.count("distinct_boundary_cases");
+            // all items are distinct, the replaced blocks are unrelated: the optimum is known by construction
+            struct ResetKnown;
+            impl Drop for ResetKnown {
+                fn drop(&mut self) {
+                    KNOWN_OPTIMUM.with(|k| k.set(None));
+                }
+            }
+            let _reset = ResetKnown; // also on unwinding: a stale value must never reach another case
+            KNOWN_OPTIMUM.with(|k| k.set(Some(2 * l)));
             captured_case(focus, cfg, alg, &a, 0..a.len(), &b, 0..b.len(), 2, false, out);
             captured_case(focus, cfg, alg, &a, 0..a.len(), &b, 0..b.len(), 0, false, out);
         },
@@ -713,10 +725,18 @@ fn minimality(
 ) {
     let xa = &a[or.clone()];
     let xb = &b[nr.clone()];
-    let l = lcs_len(xa, xb);
     let (n, m) = (xa.len(), xb.len());
+    let l = match KNOWN_OPTIMUM.with(|k| k.get()) {
+        Some(opt) => {
+            out.count("optimum_known_by_construction_runs");
+            (n + m - opt) / 2
+        }
+        None => {
+            out.count("dp_oracle_runs");
+            lcs_len(xa, xb)
+        }
+    };
     let opt = n + m - 2 * l;
-    out.count("dp_oracle_runs");
     if opt > 0 {
         out.count("runs_with_nonzero_distance");
     }
